@@ -34,6 +34,7 @@ func cmdServe(args []string) error {
 	fs := flag.NewFlagSet("serve", flag.ExitOnError)
 	dbPath := fs.String("db", "", "")
 	port := fs.Int("port", 0, "")
+	pusher := fs.Bool("pusher", false, "also run the http-pusher background service")
 	fs.Parse(args)
 	quietLogging()
 	e := &Env{Dir: filepath.Dir(*dbPath), DBPath: *dbPath, T0: time.Now()}
@@ -44,6 +45,21 @@ func cmdServe(args []string) error {
 	}
 	if err := e.startServerOn(*port); err != nil {
 		return err
+	}
+	if *pusher {
+		svc := serviceByName("http-pusher")
+		if svc == nil {
+			return fmt.Errorf("no http-pusher service")
+		}
+		if err := svc.Initialize(context.Background(), e.Client); err != nil {
+			return err
+		}
+		ready := make(chan struct{})
+		go func() {
+			// (a panic in the service's goroutines ends the process, which is the point)
+			_ = svc.Start(context.Background(), ready)
+		}()
+		<-ready
 	}
 	fmt.Println("READY")
 	select {}
@@ -56,13 +72,13 @@ type child struct {
 	done chan struct{}
 }
 
-func startChild(dbPath string) (*child, error) {
+func startChild(dbPath string, extra ...string) (*child, error) {
 	port, err := freePort()
 	if err != nil {
 		return nil, err
 	}
 	self, _ := os.Executable()
-	cmd := exec.Command(self, "serve", "-db", dbPath, "-port", fmt.Sprint(port))
+	cmd := exec.Command(self, append([]string{"serve", "-db", dbPath, "-port", fmt.Sprint(port)}, extra...)...)
 	cmd.Env = append(os.Environ(), "LOG_LEVEL=fatal")
 	stderr, _ := os.Create(dbPath + ".server.log")
 	cmd.Stderr = stderr
@@ -629,7 +645,77 @@ func cmdC16(args []string) error {
 		perRPC[r.RPC]++
 		results = append(results, r)
 	}
-	return writeJSON(filepath.Join(*out, "c16.json"), map[string]interface{}{"requests": len(results), "total_domain": len(reqs), "outcomes": outcomes,
+	// ---- push endpoints, with the http-pusher background service running in the child ----
+	// An accepted push configuration is picked up by the pusher service at once (it waits on
+	// the subscription-change notifier): whatever the endpoint string, the process must
+	// survive. Liveness is checked 300 ms after every request; no table comparison here
+	// (the pusher writes on its own).
+	ch.stop()
+	if ch, err = startChild(dbPath, "-pusher"); err != nil {
+		return fmt.Errorf("start with pusher: %w", err)
+	}
+	endpoints := []string{"http://127.0.0.1:1/push", "http://[::1", "http://push host/x", "%zz", "http://example.com:port/push", "not a url",
+		"", "http://", "://", "http://127.0.0.1:1/\x00", "ftp://127.0.0.1:1/x", "http://127.0.0.1:99999/"}
+	for i, ep := range endpoints {
+		ep := ep
+		name := fmt.Sprintf("projects/p/subscriptions/push%02d", i)
+		calls := []struct {
+			rpc  string
+			call func(context.Context, *grpc.ClientConn) error
+		}{
+			{"CreateSubscription", func(ctx context.Context, cc *grpc.ClientConn) error {
+				_, err := pubsubpb.NewSubscriberClient(cc).CreateSubscription(ctx, &pubsubpb.Subscription{Name: name, Topic: "projects/p/topics/t0",
+					PushConfig: &pubsubpb.PushConfig{PushEndpoint: ep}})
+				return err
+			}},
+			{"ModifyPushConfig", func(ctx context.Context, cc *grpc.ClientConn) error {
+				_, err := pubsubpb.NewSubscriberClient(cc).ModifyPushConfig(ctx, &pubsubpb.ModifyPushConfigRequest{Subscription: "projects/p/subscriptions/s1",
+					PushConfig: &pubsubpb.PushConfig{PushEndpoint: ep}})
+				return err
+			}},
+			{"ModifyPushConfig", func(ctx context.Context, cc *grpc.ClientConn) error {
+				_, err := pubsubpb.NewSubscriberClient(cc).ModifyPushConfig(ctx, &pubsubpb.ModifyPushConfigRequest{Subscription: "projects/p/subscriptions/s1",
+					PushConfig: &pubsubpb.PushConfig{}})
+				return err
+			}},
+		}
+		for _, c := range calls {
+			cctx, cancel := context.WithTimeout(ctx, 6*time.Second)
+			err := c.call(cctx, ch.conn)
+			cancel()
+			r := c16result{RPC: c.rpc, Desc: fmt.Sprintf("push endpoint %q, http-pusher service running", ep), Outcome: "OK"}
+			if err != nil {
+				r.Outcome = status.Code(err).String()
+			}
+			select {
+			case <-ch.done:
+			case <-time.After(300 * time.Millisecond):
+			}
+			if !ch.alive() {
+				r.Outcome = "PANIC"
+				if b, e2 := os.ReadFile(dbPath + ".server.log"); e2 == nil {
+					if len(b) > 1500 {
+						b = b[len(b)-1500:]
+					}
+					r.Changed = "server log: " + string(b)
+				}
+				ch.stop()
+				if ch, err = startChild(dbPath, "-pusher"); err != nil {
+					// the stored configuration crashes the service on every start: go on without it
+					if ch, err = startChild(dbPath); err != nil {
+						return fmt.Errorf("restart after panic: %w", err)
+					}
+				}
+			} else if r.Outcome == "DeadlineExceeded" {
+				r.Outcome = "HANG"
+			}
+			outcomes[r.Outcome]++
+			perRPC[r.RPC]++
+			results = append(results, r)
+		}
+	}
+	ch.stop()
+	return writeJSON(filepath.Join(*out, "c16.json"), map[string]interface{}{"requests": len(results), "total_domain": len(reqs) + 3*len(endpoints), "outcomes": outcomes,
 		"per_rpc": perRPC, "results": results, "exhaustive": *sample <= 1})
 }
 
